@@ -508,4 +508,699 @@ theorem forIn_post {α} (P : α → State → Prop) (f : α → PUnit → M (For
     · exact forIn_keep (P a') f (hkeep a') l s1 _ s' hp hrest
     · exact ih (fun a ha => hpost a (List.mem_cons_of_mem _ ha)) s1 r s' hrest a' hmem
 
+/-! ## `shouldCutoff` -/
+
+/-- the verdict of the cutoff of node `n` on `(old, new)`: `true` = "suppress".  `none`: the
+`dependOn` input does not exist (the model panics) -/
+def cutoffVerdict (env : Env) (s : State) (n : Nat) (old new : Val) : Option Bool :=
+  match (s.nodeD n).cutoff with
+  | .always => some true
+  | .never => some false
+  | .eq => some (old == new)
+  | .fn c => some (env.cutoff c old new)
+  | .boxed c => some (env.cutoff c old new)
+  | .dependOn i => (s.nodes[i]?).map fun ni => ni.changedAt == (s.nodeD n).changedAt
+
+/-- the events a cutoff check logs: one `cut` event for a user-supplied cutoff function, else none -/
+def cutoffLog (env : Env) (s : State) (n : Nat) (old new : Val) : List Event :=
+  match (s.nodeD n).cutoff with
+  | .fn c => [.cut c n old new (env.cutoff c old new)]
+  | .boxed c => [.cut c n old new (env.cutoff c old new)]
+  | _ => []
+
+/-- `s` with events prepended to the (reversed) log -/
+def logged (es : List Event) (s : State) : State := { s with log := es ++ s.log }
+
+theorem shouldCutoff_run (env : Env) (n : Nat) (old new : Val) (s : State) (nd : Node)
+    (hn : s.nodes[n]? = some nd) (hp : s.panicCountdown = none) :
+    (shouldCutoff env n old new).run.run s =
+      match cutoffVerdict env s n old new with
+      | some b => (.ok b, logged (cutoffLog env s n old new) s)
+      | none => (.error (.site "model:no-such-node"), s) := by
+  have hD : s.nodeD n = nd := nodeD_of_some hn
+  unfold shouldCutoff cutoffVerdict cutoffLog
+  rw [run_bind_ok (run_getNode_some hn), hD]
+  cases hc : nd.cutoff with
+  | always => rfl
+  | never => rfl
+  | eq => rfl
+  | fn c => simp only [run_bind_ok (run_tick_none s hp), run_bind, run_logEv, run_pure]; rfl
+  | boxed c => simp only [run_bind_ok (run_tick_none s hp), run_bind, run_logEv, run_pure]; rfl
+  | dependOn i =>
+    cases hi : s.nodes[i]? with
+    | none => simp only [run_bind, run_getNode, hi]; rfl
+    | some ni =>
+      simp only [run_bind_ok (run_getNode_some hi), run_bind_ok (run_getNode_some hn), run_pure]
+      rw [hi]; rfl
+
+
+/-! ## `parentIterCanRecomputeNow` -/
+
+/-- `scope.height()` as a function of the state -/
+def scopeHeightOf (s : State) : Scope → Except Panic Int
+  | .top => .ok 0
+  | .bind b => match s.binds[b]? with
+    | none => .error (.site "model:no-such-bind")
+    | some br => match s.nodes[br.lhsChange]? with
+      | none => .error (.site "model:no-such-node")
+      | some x => .ok x.height
+
+theorem scopeHeight_run (sc : Scope) (s : State) :
+    (scopeHeight sc).run.run s = (scopeHeightOf s sc, s) := by
+  cases sc with
+  | top => rfl
+  | bind b =>
+    simp only [scopeHeight, scopeHeightOf, getBind, run_bind, run_get]
+    cases s.binds[b]? with
+    | none => rfl
+    | some br =>
+      simp only [run_pure, run_getNode]
+      cases s.nodes[br.lhsChange]? <;> rfl
+
+/-- what `min_height` returns: the height of the first non-empty bucket (the bucket count when the
+heap is empty) -/
+def minHeightOf (s : State) : Int :=
+  if s.rch.length == 0 then (s.rch.queues.size : Int)
+  else if s.rch.lowerBound < 0 then s.rch.lowerBound
+  else (firstNonEmpty s.rch.queues (s.rch.queues.size + 1) s.rch.lowerBound.toNat : Nat)
+
+/-- `min_height` also raises the heap's lower bound to what it returns -/
+def withMinHeight (s : State) : State :=
+  { s with rch := { s.rch with lowerBound := minHeightOf s } }
+
+theorem rchMinHeight_run (s : State) :
+    rchMinHeight.run.run s = (.ok (minHeightOf s), withMinHeight s) := rfl
+
+/-- the `can_recompute_now` flag of `parent_iter_can_recompute_now`, for a parent `pn` of kind `k`,
+a child of height `ch`, the heap's minimum height `minH` -/
+def canRecomputeNow (s : State) (pn : Node) (k : Kind) (ch minH : Int) : Except Panic Bool :=
+  match k with
+  | .const _ => .error (.site "node:parent_iter_can_recompute_now:not-a-parent")
+  | .var _ => .error (.site "node:parent_iter_can_recompute_now:not-a-parent")
+  | .fold .. => .ok false
+  | .expert _ => .ok false
+  | .map _ args =>
+    if args.length ≥ 2 then .ok false
+    else (scopeHeightOf s pn.createdIn).map fun sh => decide (ch > sh) && decide (minH > sh)
+  | .bindLhsChange _ => (scopeHeightOf s pn.createdIn).map fun sh => decide (ch > sh) && decide (minH > sh)
+  | .mapRef .. => (scopeHeightOf s pn.createdIn).map fun sh => decide (ch > sh) && decide (minH > sh)
+  | .mapWithOld .. => (scopeHeightOf s pn.createdIn).map fun sh => decide (ch > sh) && decide (minH > sh)
+  | .bindMain _ lc => match s.nodes[lc]? with
+    | none => .error (.site "model:no-such-node")
+    | some l => .ok (decide (ch > l.height) && decide (minH > l.height))
+
+/-- bind rule with the result of the first half supplied separately -/
+theorem run_bind_of {α β} {x : M α} {f : α → M β} {s s1 : State} {res : Except Panic α}
+    (hx : x.run.run s = (res, s1)) :
+    (x >>= f).run.run s = match (generalizing := false) res with
+      | .ok a => (f a).run.run s1
+      | .error e => (.error e, s1) := by
+  rw [run_bind, hx]; cases res <;> rfl
+
+/-- relabel the result of a run, keeping panics -/
+def mapOk' {α β} (b : β) (r : Except Panic α × State) : Except Panic β × State :=
+  match r with
+  | (.ok _, s') => (.ok b, s')
+  | (.error e, s') => (.error e, s')
+
+/-- the part of `parent_iter_can_recompute_now` after the `can` flag is known -/
+theorem picrn_tail_run (p : Nat) (pn : Node) (minH : Int) (can : Bool) (s : State) :
+    ((if can || pn.height ≤ minH then pure true
+      else do
+        let s ← get
+        dassert (s.needsToBeComputed p) "node:parent_iter_can_recompute_now:needs-to-be-computed"
+        dassert (!pn.inRch) "node:parent_iter_can_recompute_now:not-in-rch"
+        rchInsert p
+        pure false) : M Bool).run.run s =
+      if (can || decide (pn.height ≤ minH)) = true then (.ok true, s)
+      else if s.cfg.debug = true ∧ s.needsToBeComputed p = false then
+        (.error (.site "node:parent_iter_can_recompute_now:needs-to-be-computed"), s)
+      else if s.cfg.debug = true ∧ pn.inRch = true then
+        (.error (.site "node:parent_iter_can_recompute_now:not-in-rch"), s)
+      else mapOk' false ((rchInsert p).run.run s) := by
+  simp only [run_ite, run_pure, run_bind, run_get, run_dassert]
+  by_cases h1 : (can || decide (pn.height ≤ minH)) = true
+  · rw [if_pos h1, if_pos h1]
+  rw [if_neg h1, if_neg h1]
+  by_cases h2 : s.cfg.debug = true ∧ s.needsToBeComputed p = false
+  · rw [if_pos h2, if_pos h2]
+  rw [if_neg h2, if_neg h2]
+  dsimp only
+  by_cases h3 : s.cfg.debug = true ∧ pn.inRch = true
+  · have h3' : s.cfg.debug = true ∧ (!pn.inRch) = false := by simpa using h3
+    rw [if_pos h3, if_pos h3']
+  have h3' : ¬ (s.cfg.debug = true ∧ (!pn.inRch) = false) := by simpa using h3
+  rw [if_neg h3, if_neg h3']
+  dsimp only
+  generalize (rchInsert p).run.run s = r
+  rcases r with ⟨_ | _, _⟩ <;> rfl
+
+/-- complete description of `parent_iter_can_recompute_now p child` -/
+theorem picrn_run (p child : Nat) (s : State) :
+    (parentIterCanRecomputeNow p child).run.run s =
+      match s.nodes[p]? with
+      | none => (.error (.site "model:no-such-node"), s)
+      | some pn => match pn.kind? with
+        | none => (.ok false, s)
+        | some k => match s.nodes[child]? with
+          | none => (.error (.site "model:no-such-node"), withMinHeight s)
+          | some cn => match canRecomputeNow s pn k cn.height (minHeightOf s) with
+            | .error e => (.error e, withMinHeight s)
+            | .ok can =>
+              if (can || decide (pn.height ≤ minHeightOf s)) = true then (.ok true, withMinHeight s)
+              else if s.cfg.debug = true ∧ s.needsToBeComputed p = false then
+                (.error (.site "node:parent_iter_can_recompute_now:needs-to-be-computed"), withMinHeight s)
+              else if s.cfg.debug = true ∧ pn.inRch = true then
+                (.error (.site "node:parent_iter_can_recompute_now:not-in-rch"), withMinHeight s)
+              else mapOk' false ((rchInsert p).run.run (withMinHeight s)) := by
+  unfold parentIterCanRecomputeNow
+  cases hp : s.nodes[p]? with
+  | none => simp only [run_bind, run_getNode, hp]
+  | some pn =>
+    rw [run_bind_ok (run_getNode_some hp)]
+    dsimp only
+    cases hk : pn.kind? with
+    | none => rfl
+    | some k =>
+      dsimp only
+      rw [run_bind_ok (rchMinHeight_run s)]
+      have hc' : (withMinHeight s).nodes[child]? = s.nodes[child]? := rfl
+      cases hc : s.nodes[child]? with
+      | none => simp only [run_bind, run_getNode, hc', hc]
+      | some cn =>
+        rw [hc] at hc'
+        rw [run_bind_ok (run_getNode_some hc')]
+        dsimp only
+        have htail := fun can => picrn_tail_run p pn (minHeightOf s) can (withMinHeight s)
+        have hsh : scopeHeightOf (withMinHeight s) pn.createdIn = scopeHeightOf s pn.createdIn := rfl
+        cases k with
+        | const v => rfl
+        | var c => rfl
+        | fold f i cs => exact htail false
+        | expert e => exact htail false
+        | map f args =>
+          simp only [canRecomputeNow]
+          split
+          · exact htail false
+          · rw [run_bind_of (scopeHeight_run _ _), hsh]
+            cases scopeHeightOf s pn.createdIn with
+            | error e => rfl
+            | ok sh => exact htail _
+        | bindLhsChange b =>
+          simp only [canRecomputeNow]
+          rw [run_bind_of (scopeHeight_run _ _), hsh]
+          cases scopeHeightOf s pn.createdIn with
+          | error e => rfl
+          | ok sh => exact htail _
+        | mapRef p i =>
+          simp only [canRecomputeNow]
+          rw [run_bind_of (scopeHeight_run _ _), hsh]
+          cases scopeHeightOf s pn.createdIn with
+          | error e => rfl
+          | ok sh => exact htail _
+        | mapWithOld g i =>
+          simp only [canRecomputeNow]
+          rw [run_bind_of (scopeHeight_run _ _), hsh]
+          cases scopeHeightOf s pn.createdIn with
+          | error e => rfl
+          | ok sh => exact htail _
+        | bindMain b lc =>
+          have hl : (withMinHeight s).nodes[lc]? = s.nodes[lc]? := rfl
+          simp only [canRecomputeNow]
+          cases hlc : s.nodes[lc]? with
+          | none => rw [hlc] at hl; simp only [run_bind, run_getNode, hl]
+          | some l =>
+            rw [hlc] at hl
+            rw [run_bind_ok (run_getNode_some hl)]
+            exact htail _
+
+
+/-! ## `maybeChangeValueManual`: changes are never lost -/
+
+/-- node `p` exists and is in the recompute heap -/
+def InHeap (p : Nat) (t : State) : Prop := p < t.nodes.size ∧ (t.nodeD p).inRch = true
+
+theorem Quiet.inHeap {s s' : State} (q : Quiet s s') {p : Nat} (h : InHeap p s) : InHeap p s' :=
+  ⟨by rw [q.size]; exact h.1, (q.node p).inRch h.2⟩
+
+theorem childChanged_ok_valid {env : Env} {fuel p c ci : Nat} {o : Option Val} {s s' : State} {u : Unit}
+    (h : (childChanged env fuel p c ci o).run.run s = (.ok u, s')) :
+    p < s.nodes.size ∧ (s.nodeD p).valid = true := by
+  cases fuel with
+  | zero => unfold childChanged at h; cases h
+  | succ fuel =>
+    unfold childChanged at h
+    obtain ⟨nd, s1, hg, h2⟩ := bind_ok_inv h
+    obtain ⟨rfl, hnd⟩ := getNode_ok_inv hg
+    refine ⟨lt_of_some hnd, ?_⟩
+    rw [nodeD_of_some hnd]
+    cases hv : nd.valid with
+    | true => rfl
+    | false =>
+      have : nd.kind? = none := by simp [Node.kind?, hv]
+      rw [this] at h2
+      cases h2
+
+theorem picrn_false_inHeap {p child : Nat} {s s' : State}
+    (h : (parentIterCanRecomputeNow p child).run.run s = (.ok false, s'))
+    (hlt : p < s.nodes.size) (hv : (s.nodeD p).valid = true) : InHeap p s' := by
+  rw [picrn_run, some_of_lt hlt] at h
+  have hk : (s.nodeD p).kind? = some (s.nodeD p).kind := by simp [Node.kind?, hv]
+  simp only [hk] at h
+  cases hc : s.nodes[child]? with
+  | none => rw [hc] at h; cases h
+  | some cn =>
+    rw [hc] at h
+    dsimp only at h
+    cases hcan : canRecomputeNow s (s.nodeD p) (s.nodeD p).kind cn.height (minHeightOf s) with
+    | error e => rw [hcan] at h; cases h
+    | ok can =>
+      rw [hcan] at h
+      dsimp only at h
+      split at h
+      · cases h
+      split at h
+      · cases h
+      split at h
+      · cases h
+      rcases hi : (rchInsert p).run.run (withMinHeight s) with ⟨_ | u, s2⟩
+      · rw [hi] at h; cases h
+      · rw [hi] at h
+        cases h
+        exact rchInsert_ok_inRch hi
+
+
+theorem bind_dassert_inv {β} {c : Bool} {site : String} {f : Unit → M β} {s s' : State} {r : β}
+    (h : (dassert c site >>= f).run.run s = (.ok r, s')) : (f ()).run.run s = (.ok r, s') := by
+  obtain ⟨u, s1, h1, h2⟩ := bind_ok_inv h
+  obtain rfl := dassert_ok_inv h1
+  exact h2
+
+theorem bind_getNode_inv {β} {n : Nat} {f : Node → M β} {s s' : State} {r : β}
+    (h : (getNode n >>= f).run.run s = (.ok r, s')) :
+    ∃ nd, s.nodes[n]? = some nd ∧ (f nd).run.run s = (.ok r, s') := by
+  obtain ⟨nd, s1, h1, h2⟩ := bind_ok_inv h
+  obtain ⟨rfl, hnd⟩ := getNode_ok_inv h1
+  exact ⟨nd, hnd, h2⟩
+
+theorem touched_nodeD (n m : Nat) (s : State) :
+    (touched n s).nodeD m =
+      if n = m ∧ m < s.nodes.size then { s.nodeD m with changedAt := s.stabNum } else s.nodeD m :=
+  nodeD_modify s n m _
+
+/-- "changes are never lost": after a propagating `maybe_change_value_manual` (with `child_changed`
+notifications on) every parent of the node is in the recompute heap, except possibly the first
+parent when it is handed back to the caller for direct recomputation -/
+theorem mcvm_parents (env : Env) (fuel n : Nat) (o : Option Val) (s s' : State)
+    (r : Option Nat) (nd : Node) (hn : s.nodes[n]? = some nd)
+    (h : (maybeChangeValueManual env fuel n o true true).run.run s = (.ok r, s')) :
+    ∀ p, p ∈ nd.parents.map (·.1) →
+      InHeap p s' ∨ (p < s'.nodes.size ∧ r = some p ∧ (nd.parents.head?).map (·.1) = some p) := by
+  unfold maybeChangeValueManual at h
+  simp only [Bool.not_true, Bool.false_eq_true, if_false, if_true, run_bind_get, run_bind_modNode,
+    run_bind_bumpCounter] at h
+  obtain ⟨u, s1, h1, h2⟩ := bind_ok_inv h
+  have q1 : Quiet (touched n s) s1 := (Pres.maybeHandleAfterStabilisation n).h _ _ _ h1
+  obtain ⟨nd1, s1', hg, h3⟩ := bind_ok_inv h2
+  obtain ⟨rfl, hnd1⟩ := getNode_ok_inv hg
+  have hpar : nd1.parents = nd.parents := by
+    have := (q1.node n).parents
+    rw [nodeD_of_some hnd1, touched_nodeD, if_pos ⟨rfl, lt_of_some hn⟩, nodeD_of_some hn] at this
+    exact this
+  rw [hpar] at h3
+  rcases hps : nd.parents with _ | ⟨⟨p0, ci0⟩, rest⟩
+  · intro p hp; cases hp
+  rw [hps] at h3
+  dsimp only at h3
+  obtain ⟨u2, s2, hloop, hlast⟩ := bind_ok_inv h3
+  have hrest : ∀ a, a ∈ rest → InHeap a.1 s2 := by
+    refine forIn_post (fun a t => InHeap a.1 t) _ ?_ rest ?_ s1' _ s2 hloop
+    · intro a b t r t' hp hb
+      refine Quiet.inHeap (Pres.h ?_ _ _ _ hb) hp
+      qpres
+    · intro a _ t r t' hb
+      obtain ⟨_, t1, hcc, hb1⟩ := bind_ok_inv hb
+      rw [run_bind_get] at hb1
+      obtain ⟨na, hna, hb4⟩ := bind_getNode_inv (bind_dassert_inv hb1)
+      split at hb4
+      · obtain ⟨_, t5, hins, hb5⟩ := bind_ok_inv hb4
+        obtain ⟨rfl, rfl⟩ := pure_ok_inv hb5
+        exact ⟨rfl, rchInsert_ok_inRch hins⟩
+      · obtain ⟨rfl, rfl⟩ := pure_ok_inv hb4
+        rename_i hin
+        refine ⟨rfl, lt_of_some hna, ?_⟩
+        rw [nodeD_of_some hna]
+        simpa using hin
+  -- the first parent
+  obtain ⟨_, s3, hcc, hl1⟩ := bind_ok_inv hlast
+  have hv0 := childChanged_ok_valid hcc
+  have q3 : Quiet s2 s3 := (Pres.childChanged ..).h _ _ _ hcc
+  rw [run_bind_get] at hl1
+  obtain ⟨nd0, hnd0, hl4⟩ := bind_getNode_inv (bind_dassert_inv hl1)
+  have hv3 : p0 < s3.nodes.size ∧ (s3.nodeD p0).valid = true :=
+    ⟨by rw [q3.size]; exact hv0.1, by rw [(q3.node p0).valid]; exact hv0.2⟩
+  -- common conclusion once the final state is known to extend `st` quietly
+  have fin : ∀ t, Quiet s3 t → (InHeap p0 t ∨ (p0 < t.nodes.size ∧ r = some p0)) →
+      ∀ p, p ∈ ((p0, ci0) :: rest).map (·.1) →
+        InHeap p t ∨ (p < t.nodes.size ∧ r = some p ∧
+          (((p0, ci0) :: rest).head?).map (·.1) = some p) := by
+    intro t qt h0 p hp
+    rw [List.map_cons, List.mem_cons] at hp
+    rcases hp with rfl | hp
+    · rcases h0 with h0 | ⟨h0, h0'⟩
+      · exact Or.inl h0
+      · exact Or.inr ⟨h0, h0', rfl⟩
+    · obtain ⟨a, ha, rfl⟩ := List.mem_map.1 hp
+      exact Or.inl (qt.inHeap (q3.inHeap (hrest a ha)))
+  split at hl4
+  · obtain ⟨b, s4, hpi, hl5⟩ := bind_ok_inv hl4
+    have q4 : Quiet s3 s4 := (Pres.parentIterCanRecomputeNow ..).h _ _ _ hpi
+    cases b with
+    | true =>
+      simp only [if_true] at hl5
+      obtain ⟨rfl, rfl⟩ := pure_ok_inv hl5
+      exact fin _ q4 (Or.inr ⟨by rw [q4.size]; exact hv3.1, rfl⟩)
+    | false =>
+      simp only [Bool.false_eq_true, if_false] at hl5
+      obtain ⟨rfl, rfl⟩ := pure_ok_inv hl5
+      exact fin _ q4 (Or.inl (picrn_false_inHeap hpi hv3.1 hv3.2))
+  · obtain ⟨rfl, rfl⟩ := pure_ok_inv hl4
+    rename_i hin
+    refine fin _ (Quiet.refl _) (Or.inl ⟨hv3.1, ?_⟩)
+    rw [nodeD_of_some hnd0]
+    simpa using hin
+
+
+/-! ## `maybeChangeValue` -/
+
+/-- node `n`'s `value` field set to `v` -/
+def setValue (n : Nat) (v : Option Val) (s : State) : State :=
+  { s with nodes := s.nodes.modify n fun x => { x with value := v } }
+
+theorem array_modify_modify {α} (a : Array α) (n : Nat) (f g : α → α) :
+    (a.modify n f).modify n g = a.modify n (g ∘ f) := by
+  apply Array.ext_getElem?
+  intro i
+  simp only [Array.getElem?_modify]
+  by_cases h : n = i
+  · simp [h]
+  · simp [h]
+
+theorem setValue_setValue (n : Nat) (v w : Option Val) (s : State) :
+    setValue n v (setValue n w s) = setValue n v s := by
+  simp only [setValue, array_modify_modify]
+  rfl
+
+theorem setValue_nodeD (n m : Nat) (v : Option Val) (s : State) :
+    (setValue n v s).nodeD m =
+      if n = m ∧ m < s.nodes.size then { s.nodeD m with value := v } else s.nodeD m :=
+  nodeD_modify s n m _
+
+theorem setValue_getElem? (n m : Nat) (v : Option Val) (s : State) :
+    (setValue n v s).nodes[m]? =
+      (s.nodes[m]?).map fun x => if n = m then { x with value := v } else x := by
+  simp only [setValue, Array.getElem?_modify]
+  by_cases h : n = m
+  · simp [h]
+  · simp [h]
+
+theorem cutoffVerdict_setValue (env : Env) (n m : Nat) (v : Option Val) (s : State) (old new : Val) :
+    cutoffVerdict env (setValue n v s) m old new = cutoffVerdict env s m old new := by
+  unfold cutoffVerdict
+  have h1 : ((setValue n v s).nodeD m).cutoff = (s.nodeD m).cutoff := by
+    rw [setValue_nodeD]; split <;> rfl
+  have h2 : ((setValue n v s).nodeD m).changedAt = (s.nodeD m).changedAt := by
+    rw [setValue_nodeD]; split <;> rfl
+  rw [h1, h2]
+  cases (s.nodeD m).cutoff <;> try rfl
+  rename_i i
+  simp only [setValue_getElem?]
+  cases s.nodes[i]? with
+  | none => rfl
+  | some x => simp only [Option.map_some]; split <;> rfl
+
+theorem cutoffLog_setValue (env : Env) (n m : Nat) (v : Option Val) (s : State) (old new : Val) :
+    cutoffLog env (setValue n v s) m old new = cutoffLog env s m old new := by
+  unfold cutoffLog
+  have h1 : ((setValue n v s).nodeD m).cutoff = (s.nodeD m).cutoff := by
+    rw [setValue_nodeD]; split <;> rfl
+  rw [h1]
+
+theorem run_mcvm_false (env : Env) (fuel n : Nat) (o : Option Val) (b : Bool) (s : State) :
+    (maybeChangeValueManual env fuel n o false b).run.run s = (.ok none, s) := by
+  unfold maybeChangeValueManual
+  simp only [Bool.not_false, if_true, run_pure]
+
+/-- `maybe_change_value` = clear the value, ask the cutoff (only when there was a value), store the
+new value, then `maybe_change_value_manual` with "did change" = "not cut off" -/
+theorem mcv_run (env : Env) (fuel n : Nat) (new : Val) (s : State) (nd : Node)
+    (hn : s.nodes[n]? = some nd) :
+    (maybeChangeValue env fuel n new).run.run s =
+      match nd.value with
+      | none =>
+        (maybeChangeValueManual env fuel n none true true).run.run
+          (setValue n (some new) s)
+      | some old =>
+        match (shouldCutoff env n old new).run.run (setValue n none s) with
+        | (.ok c, s1) =>
+          (maybeChangeValueManual env fuel n (some old) (!c) true).run.run (setValue n (some new) s1)
+        | (.error e, s1) => (.error e, s1) := by
+  unfold maybeChangeValue
+  rw [run_bind_ok (run_getNode_some hn), run_bind_modNode]
+  cases hv : nd.value with
+  | none =>
+    simp only [pure_bind, run_bind_modNode]
+    rw [← setValue_setValue n (some new) none s]
+    rfl
+  | some old =>
+    simp only [pure_bind]
+    rw [run_bind]
+    simp only [setValue]
+    generalize (shouldCutoff env n old new).run.run _ = r
+    rcases r with ⟨_ | c, s1⟩
+    · rfl
+    · simp only [run_bind_modNode]
+
+
+/-- does `maybe_change_value n new` treat the new value as a change?  First result: yes, without
+asking the cutoff.  Otherwise: the negated cutoff verdict on `(old, new)`. -/
+def mcvChanges (env : Env) (s : State) (n : Nat) (new : Val) : Option Bool :=
+  match (s.nodeD n).value with
+  | none => some true
+  | some old => (cutoffVerdict env s n old new).map (!·)
+
+/-- the events the cutoff check of `maybe_change_value n new` logs -/
+def mcvLog (env : Env) (s : State) (n : Nat) (new : Val) : List Event :=
+  match (s.nodeD n).value with
+  | none => []
+  | some old => cutoffLog env s n old new
+
+theorem setValue_logged (n : Nat) (v : Option Val) (es : List Event) (s : State) :
+    setValue n v (logged es s) = logged es (setValue n v s) := rfl
+
+/-- master equation of `maybe_change_value` (no fault armed) -/
+theorem mcv_run' (env : Env) (fuel n : Nat) (new : Val) (s : State) (nd : Node)
+    (hn : s.nodes[n]? = some nd) (hp : s.panicCountdown = none) :
+    (maybeChangeValue env fuel n new).run.run s =
+      match mcvChanges env s n new with
+      | none => (.error (.site "model:no-such-node"), setValue n none s)
+      | some d =>
+        (maybeChangeValueManual env fuel n nd.value d true).run.run
+          (setValue n (some new) (logged (mcvLog env s n new) s)) := by
+  rw [mcv_run env fuel n new s nd hn]
+  unfold mcvChanges mcvLog
+  rw [nodeD_of_some hn]
+  cases hv : nd.value with
+  | none => rfl
+  | some old =>
+    dsimp only
+    have hn' : (setValue n none s).nodes[n]? = some { nd with value := none } := by
+      rw [setValue_getElem?, hn]; simp
+    rw [shouldCutoff_run env n old new _ _ hn' hp, cutoffVerdict_setValue, cutoffLog_setValue]
+    cases cutoffVerdict env s n old new with
+    | none => rfl
+    | some c =>
+      simp only [Option.map_some]
+      rw [← setValue_logged, setValue_setValue]
+
+/-- cutoff says "suppress": the value is replaced, nothing else happens -/
+theorem mcv_suppress (env : Env) (fuel n : Nat) (new : Val) (s : State) (nd : Node)
+    (hn : s.nodes[n]? = some nd) (hp : s.panicCountdown = none)
+    (hd : mcvChanges env s n new = some false) :
+    (maybeChangeValue env fuel n new).run.run s =
+      (.ok none, setValue n (some new) (logged (mcvLog env s n new) s)) := by
+  rw [mcv_run' env fuel n new s nd hn hp, hd]
+  exact run_mcvm_false ..
+
+/-- the state in which the parents of `n` are notified: new value stored, `changedAt` stamped,
+`changed` counter bumped -/
+def changedState (env : Env) (n : Nat) (new : Val) (s : State) : State :=
+  touched n (setValue n (some new) (logged (mcvLog env s n new) s))
+
+/-- cutoff says "propagate" (or first result): everything after the stamping is `Quiet`, and every
+parent ends up in the heap or is handed back -/
+theorem mcv_propagate (env : Env) (fuel n : Nat) (new : Val) (s s' : State) (nd : Node)
+    (r : Option Nat)
+    (hn : s.nodes[n]? = some nd) (hp : s.panicCountdown = none)
+    (hd : mcvChanges env s n new = some true)
+    (h : (maybeChangeValue env fuel n new).run.run s = (.ok r, s')) :
+    Quiet (changedState env n new s) s' ∧
+    ∀ p, p ∈ nd.parents.map (·.1) →
+      InHeap p s' ∨ (p < s'.nodes.size ∧ r = some p ∧ (nd.parents.head?).map (·.1) = some p) := by
+  rw [mcv_run' env fuel n new s nd hn hp, hd] at h
+  dsimp only at h
+  refine ⟨mcvm_true_quiet _ _ _ _ _ _ _ _ h, ?_⟩
+  have hn' : (setValue n (some new) (logged (mcvLog env s n new) s)).nodes[n]?
+      = some { nd with value := some new } := by
+    rw [setValue_getElem?]
+    show Option.map _ s.nodes[n]? = _
+    rw [hn]; simp
+  exact mcvm_parents env fuel n nd.value _ s' r { nd with value := some new } hn' h
+
+/-- also when the call panics, everything after the stamping is `Quiet` -/
+theorem mcv_propagate_any (env : Env) (fuel n : Nat) (new : Val) (s s' : State) (nd : Node)
+    (r : Except Panic (Option Nat))
+    (hn : s.nodes[n]? = some nd) (hp : s.panicCountdown = none)
+    (hd : mcvChanges env s n new = some true)
+    (h : (maybeChangeValue env fuel n new).run.run s = (r, s')) :
+    Quiet (changedState env n new s) s' := by
+  rw [mcv_run' env fuel n new s nd hn hp, hd] at h
+  exact mcvm_true_quiet _ _ _ _ _ _ _ _ h
+
+
+/-! ## `childChanged` on a MapRef parent -/
+
+/-- node `p`'s sticky `didChange` flag OR-ed with `did` -/
+def orDidChange (p : Nat) (did : Bool) (s : State) : State :=
+  { s with nodes := s.nodes.modify p fun x => { x with didChange := x.didChange || did } }
+
+/-- the forwarding loop of `child_changed`: the MapRef node `p` tells each of its own parents that it
+changed, passing on its projected old value -/
+def forwardChildChanged (env : Env) (fuel p : Nat) (selfOld : Option Val) (parents : List (Nat × Nat)) :
+    M Unit := do
+  for (pp, ci) in parents do
+    childChanged env fuel pp p ci selfOld
+
+/-- what `child_changed` does for a MapRef parent `p = map_ref(pr, ·)` of `child`: project the
+child's old and new value, ask `p`'s own cutoff about the projections (no old value: changed), OR
+the answer into `p.didChange`, and forward to `p`'s parents -/
+theorem childChanged_mapRef_run (env : Env) (fuel p child ci : Nat) (oldOpt : Option Val) (s : State)
+    (nd : Node) (pr i : Nat) (cn : Val)
+    (hp : s.nodes[p]? = some nd) (hk : nd.kind? = some (.mapRef pr i))
+    (hv : s.value env child = some cn) :
+    (childChanged env (fuel + 1) p child ci oldOpt).run.run s =
+      match oldOpt with
+      | none => (forwardChildChanged env fuel p none nd.parents).run.run (orDidChange p true s)
+      | some o =>
+        match (shouldCutoff env p (env.proj pr o) (env.proj pr cn)).run.run s with
+        | (.ok c, s1) =>
+          (forwardChildChanged env fuel p (some (env.proj pr o)) (s1.nodeD p).parents).run.run
+            (orDidChange p (!c) s1)
+        | (.error e, s1) => (.error e, s1) := by
+  unfold childChanged
+  rw [run_bind_ok (run_getNode_some hp), hk]
+  dsimp only
+  have hvu : (valueUnwrap env child "node:child_changed:ChildHasNoValue").run.run s = (.ok cn, s) := by
+    simp only [valueUnwrap, run_bind_get, hv, run_pure]
+  rw [run_bind_ok hvu]
+  have fwd : ∀ (selfOld : Option Val) (d : Bool) (t : State) (nd' : Node),
+      t.nodes[p]? = some nd' →
+      ((do
+        modNode p fun x => { x with didChange := x.didChange || d }
+        for (pp, ci) in (← getNode p).parents do
+          childChanged env fuel pp p ci selfOld) : M Unit).run.run t =
+      (forwardChildChanged env fuel p selfOld nd'.parents).run.run (orDidChange p d t) := by
+    intro selfOld d t nd' ht
+    have ht' : (orDidChange p d t).nodes[p]? = some { nd' with didChange := nd'.didChange || d } := by
+      simp [orDidChange, Array.getElem?_modify, ht]
+    rw [run_bind_modNode]
+    show (getNode p >>= _).run.run (orDidChange p d t) = _
+    rw [run_bind_ok (run_getNode_some ht')]
+    rfl
+  cases oldOpt with
+  | none =>
+    simp only [Option.map_none, pure_bind]
+    exact fwd none true s nd hp
+  | some o =>
+    simp only [Option.map_some]
+    rw [run_bind]
+    rcases hsc : (shouldCutoff env p (env.proj pr o) (env.proj pr cn)).run.run s with ⟨_ | c, s1⟩
+    · rfl
+    · dsimp only
+      have q : Quiet s s1 := (Pres.shouldCutoff ..).h _ _ _ hsc
+      have hlt : p < s1.nodes.size := by rw [q.size]; exact lt_of_some hp
+      simp only [pure_bind]
+      exact fwd _ _ s1 _ (some_of_lt hlt)
+
+
+/-! ## what `State.value` depends on (restated from `Proofs/Observers.lean`) -/
+
+/-- the fields of a node that `State.value` can see -/
+def valueCore (nd : Node) : Kind × Bool × Option Val := (nd.kind, nd.valid, nd.value)
+
+/-- one unfolding of `valueWith`, in terms of the visible fields only -/
+def valueStep' (proj : Nat → Val → Val) (c : Kind × Bool × Option Val) (rec : Nat → Option Val) :
+    Option Val :=
+  match c with
+  | (.mapRef p i, true, _) => (rec i).map (proj p)
+  | (_, _, v) => v
+
+theorem valueWith_succ' (proj : Nat → Val → Val) (s : State) (fuel n : Nat) :
+    s.valueWith proj (fuel + 1) n
+      = valueStep' proj (valueCore (s.nodeD n)) (s.valueWith proj fuel) := by
+  simp only [State.valueWith, valueStep', valueCore, Node.kind?]
+  cases hv : (s.nodeD n).valid <;> cases hk : (s.nodeD n).kind <;> simp
+
+/-- same size, same `kind`/`valid`/`value` everywhere: same values -/
+theorem value_congr (env : Env) (s s' : State) (hsz : s'.nodes.size = s.nodes.size)
+    (h : ∀ m, valueCore (s'.nodeD m) = valueCore (s.nodeD m)) (n : Nat) :
+    s'.value env n = s.value env n := by
+  simp only [State.value, hsz]
+  generalize s.nodes.size + 1 = fuel
+  induction fuel generalizing n with
+  | zero => rfl
+  | succ f ih =>
+    rw [valueWith_succ', valueWith_succ', h n]
+    congr 1
+    funext i; exact ih i
+
+/-- MapRef inputs are earlier nodes (true of every graph built through the API; same predicate as
+`Obs.MapRefsBackward`) -/
+def MapRefsBack (s : State) : Prop :=
+  ∀ (n : Nat) (nd : Node) (p i : Nat), s.nodes[n]? = some nd → nd.kind = Kind.mapRef p i → i < n
+
+/-- with MapRef inputs pointing backward, the value of node `a` only depends on nodes `≤ a` -/
+theorem valueWith_congr_below (proj : Nat → Val → Val) (s s' : State) (hwf : MapRefsBack s)
+    (a : Nat) (h : ∀ m, m ≤ a → valueCore (s'.nodeD m) = valueCore (s.nodeD m)) :
+    ∀ f f', a < f → a < f' → s'.valueWith proj f' a = s.valueWith proj f a := by
+  induction a using Nat.strongRecOn with
+  | _ a ih =>
+    intro f f' hf hf'
+    obtain ⟨f, rfl⟩ : ∃ g, f = g + 1 := ⟨f - 1, by omega⟩
+    obtain ⟨f', rfl⟩ : ∃ g, f' = g + 1 := ⟨f' - 1, by omega⟩
+    rw [valueWith_succ', valueWith_succ', h a (Nat.le_refl _)]
+    generalize hc : valueCore (s.nodeD a) = c
+    obtain ⟨k, v, val⟩ := c
+    cases k <;> try rfl
+    rename_i p i
+    cases v <;> try rfl
+    have hk : (s.nodeD a).kind = .mapRef p i := by
+      have := congrArg Prod.fst hc; simpa [valueCore] using this
+    have hi : i < a := by
+      by_cases hlt : a < s.nodes.size
+      · exact hwf a _ p i (some_of_lt hlt) hk
+      · have : s.nodeD a = default := by
+          simp [State.nodeD, Array.getElem?_eq_none (Nat.le_of_not_lt hlt)]
+        rw [this] at hk; cases hk
+    simp only [valueStep']
+    rw [ih i hi (fun m hm => h m (by omega)) f f' (by omega) (by omega)]
+
+theorem value_congr_below (env : Env) (s s' : State) (hwf : MapRefsBack s)
+    (hsz : s'.nodes.size = s.nodes.size) (a : Nat) (ha : a < s.nodes.size)
+    (h : ∀ m, m ≤ a → valueCore (s'.nodeD m) = valueCore (s.nodeD m)) :
+    s'.value env a = s.value env a := by
+  simp only [State.value, hsz]
+  exact valueWith_congr_below env.proj s s' hwf a h _ _ (by omega) (by omega)
+
+
 end IncrVerif.Proofs.Step
